@@ -1,5 +1,4 @@
-import FR.Cmd.Table
-import FR.Cmd.SigTable
+import FR.Cmd.Run
 /-!
 # The server: connections, dispatcher (`_process_command`), generic runner (`_run_command`),
 the bodies that touch the database or the server, MULTI/EXEC/WATCH, pub/sub, blocking passes.
@@ -172,17 +171,16 @@ def unsubscribeGen (c : Nat) (pattern : Bool) (names : List Bytes) : M Unit := d
     let conn ← getConn c
     emit c (.arr [.bulk mtype, .bulk name, .int conn.pubsub])
 
+/-- the deliveries of one PUBLISH, in the order the code makes them: `(receiver, message)` -/
+def deliveries (srv : Server) (channel message : Bytes) : List (Nat × Reply) :=
+  ((srv.subs.lookup channel).getD []).map (fun c => (c, Reply.arr [.bulk (strBytes "message"), .bulk channel, .bulk message]))
+  ++ (srv.psubs.filter (fun p => Glob.globMatch p.1 channel)).flatMap fun p =>
+       p.2.map fun c => (c, Reply.arr [.bulk (strBytes "pmessage"), .bulk p.1, .bulk channel, .bulk message])
+
 def publish (channel message : Bytes) : M Nat := do
-  let s ← get
-  let direct := (s.srv.subs.lookup channel).getD []
-  direct.forM fun c => emit c (.arr [.bulk (strBytes "message"), .bulk channel, .bulk message])
-  let mut n := direct.length
-  for (pat, cs) in s.srv.psubs do
-    if Glob.globMatch pat channel then
-      for c in cs do
-        emit c (.arr [.bulk (strBytes "pmessage"), .bulk pat, .bulk channel, .bulk message])
-      n := n + cs.length
-  return n
+  let ds := deliveries (← get).srv channel message
+  ds.forM fun d => emit d.1 d.2
+  return ds.length
 
 /-! ## blocking pops: one pass -/
 
